@@ -314,7 +314,10 @@ inline std::vector<double> genSills(Rng& r, int nvar, double scale)
 inline std::vector<ECov> palette(int which, int ndim)
 {
   (void)ndim;
-  if (which == 0) return {ECov::EXPONENTIAL, ECov::SPHERICAL, ECov::CUBIC, ECov::MATERN, ECov::EXPONENTIAL, ECov::SPHERICAL};
+  // (one Gaussian in eight: without a nugget it yields genuinely ill-conditioned systems, which exercise the kappa
+  //  scaling of the tolerances and the "illcond" exclusion)
+  if (which == 0)
+    return {ECov::EXPONENTIAL, ECov::SPHERICAL, ECov::CUBIC, ECov::MATERN, ECov::EXPONENTIAL, ECov::SPHERICAL, ECov::CUBIC, ECov::GAUSSIAN};
   return {ECov::EXPONENTIAL, ECov::SPHERICAL, ECov::GAUSSIAN, ECov::CUBIC,  ECov::SINCARD, ECov::BESSELJ,
           ECov::MATERN,      ECov::GAMMA,     ECov::CAUCHY,   ECov::STABLE, ECov::LINEAR,  ECov::POWER,
           ECov::ORDER1_GC,   ECov::WENDLAND1, ECov::NUGGET};
@@ -423,4 +426,15 @@ inline std::vector<double> col(const Db* db, const std::string& name)
   return db->getColumn(name, false, false).getVector();
 }
 inline bool undef(double v) { return !(std::fabs(v) < 1e29); }
+
+// |a-b| <= tol * (1 + max(|a|,|b|)/scale): 'tol' is the absolute tolerance c*eps*kappa*scale for quantities of the
+// natural magnitude 'scale'; results far above that magnitude (estimates / variances extrapolated by a drift) carry
+// the same RELATIVE round-off, hence the second term.
+inline bool closeRel(vh::Ctx& c, const std::string& oracle, const std::string& key, double a, double b, double tol, double scale,
+                     const std::string& detail = "")
+{
+  double m = std::max(std::fabs(a), std::fabs(b));
+  if (std::isfinite(m) && m < 1e29 && scale > 0) tol *= (1.0 + m / scale);
+  return c.close(oracle, key, a, b, tol, detail);
+}
 } // namespace c04
